@@ -4,12 +4,12 @@ CONSTANTS
   HostileNames <- MC_NoHostile
   MaxOps = 2
   MaxIno = 10
-  Cfg <- MC_Cfg_ifh
-  TaintOn = FALSE
-  Mode = "c05"
+  Cfg <- MC_Cfg_seal_noopen
+  AsFound <- MC_AF_c18
+  Mode = "c18"
   InitS <- MC_S_plain
-  ScenCfg <- MC_Scen_ifh
+  ScenCfg <- MC_Scen_seal_noopen
   ScenTree <- MC_Tree_plain
 VIEW View
-INVARIANTS TreeOK MirrorOK NameGateOK
+INVARIANTS TreeOK Sealed
 CHECK_DEADLOCK FALSE
